@@ -131,7 +131,7 @@ func init() {
 	})
 
 	register(&Rule{
-		ID: "hotspot.specific-overrides", Props: []string{"C05", "C06"}, Floor: 3,
+		ID: "hotspot.specific-overrides", Props: []string{"C05", "C06"}, Floor: 5,
 		Doc: "the threshold a value is metered against is the value's entry in specificItems exactly when that lookup found one and the rule's general threshold otherwise (QPS: phi over the lookup's ok flag; concurrency: the comparison is made against the looked-up value under ok and against c.threshold under !ok)",
 		Run: func(c *Ctx) {
 			for _, f := range hotspotCheckers(c.P) {
@@ -166,6 +166,25 @@ func init() {
 						}
 					})
 					c.Check(ok, fnKey(f)+" / token-count", f.Pos(), "token count = specificItems[arg] when present, else the rule threshold")
+					// the general threshold is used nowhere else: every read of it feeds that choice
+					stray := ""
+					eachInstr(f, func(ins ssa.Instruction) {
+						ld, isLd := ins.(*ssa.UnOp)
+						if !isLd || ld.Op != token.MUL {
+							return
+						}
+						if p := accessPath(ld); !strings.HasSuffix(p, ".threshold") || strings.Contains(p, "specificItems") {
+							return
+						}
+						for _, r := range refsOf(ld) {
+							switch r.(type) {
+							case *ssa.Phi, *ssa.DebugRef:
+							default:
+								stray = c.P.Pos(r.Pos())
+							}
+						}
+					})
+					c.Check(stray == "", fnKey(f)+" / general-threshold-only-as-default", f.Pos(), "the rule's general threshold is read only as the default of the per-value choice (stray use: %s)", stray)
 					continue
 				}
 				// concurrency: pass returns
